@@ -91,15 +91,17 @@ template<class S, int N> struct Tok<VectorT<S,N>> { static VectorT<S,N> make(vh:
 // ------------------------------------------------------------------ codec table
 // (ovmb type name, C++ value type) -- the set this driver (and the Lean model) knows.  T4 compares it
 // with the names registered in PropertyCodecs.cc and fails closed on any difference.
+template<class S, int N> using V = VectorT<S,N>;
+using V2d = V<double,2>; using V3d = V<double,3>; using V4d = V<double,4>;
+using V2f = V<float,2>;  using V3f = V<float,3>;  using V4f = V<float,4>;
+using V2u = V<uint32_t,2>; using V3u = V<uint32_t,3>; using V4u = V<uint32_t,4>;
+using V2i = V<int32_t,2>;  using V3i = V<int32_t,3>;  using V4i = V<int32_t,4>;
 #define IO_CODECS(X) \
   X("b", bool) X("u8", uint8_t) X("u16", uint16_t) X("u32", uint32_t) X("u64", uint64_t) \
   X("i8", int8_t) X("i16", int16_t) X("i32", int32_t) X("i64", int64_t) X("f", float) X("d", double) \
   X("s32", std::string) X("vh", VH) X("eh", EH) X("heh", HEH) X("fh", FH) X("hfh", HFH) X("ch", CH) \
-  X("2d", io::V<double,2>) X("3d", io::V<double,3>) X("4d", io::V<double,4>) \
-  X("2f", io::V<float,2>) X("3f", io::V<float,3>) X("4f", io::V<float,4>) \
-  X("2u32", io::V<uint32_t,2>) X("3u32", io::V<uint32_t,3>) X("4u32", io::V<uint32_t,4>) \
-  X("2i32", io::V<int32_t,2>) X("3i32", io::V<int32_t,3>) X("4i32", io::V<int32_t,4>)
-template<class S, int N> using V = VectorT<S,N>;
+  X("2d", io::V2d) X("3d", io::V3d) X("4d", io::V4d) X("2f", io::V2f) X("3f", io::V3f) X("4f", io::V4f) \
+  X("2u32", io::V2u) X("3u32", io::V3u) X("4u32", io::V4u) X("2i32", io::V2i) X("3i32", io::V3i) X("4i32", io::V4i)
 constexpr int N_CODECS = 30;
 
 inline const char* codec_name(int c) {
